@@ -214,6 +214,22 @@ def one(ctx, drv):
                     ctx.fail('boundary-crossing-not-reported', scen, json.dumps(impl)[:200])
                 elif 'xdev' not in probs and impl.get('err') == 'crossdev':
                     ctx.fail('boundary-crossing-reported-wrongly', scen, '')
+            # the same with an unregistered (valid, empty) Manifest met by the scan before anything else: loading it later must
+            # not make the loader forget which device it is confined to
+            extra_m = os.path.join(root, 'Manifest.gz')
+            if not os.path.lexists(extra_m):
+                import gzip
+                open(extra_m, 'wb').write(gzip.compress(b''))
+                try:
+                    impl = run_impl(root, 'update', '', None, xdev=False, fos=fos)
+                    scen = {'op': 'update-one-file-system/unregistered-manifest-first', 'mount': mnt,
+                            'links': {l: os.readlink(os.path.join(root, l)) for l in links}, 'ignored': ignored, 'dirs': dirs}
+                    ctx.count('op:' + scen['op'])
+                    ctx.case(scen, True, dict(scen, impl=impl))
+                    if 'xdev' in probs and 'loop' not in probs and impl.get('err') != 'crossdev':
+                        ctx.fail('boundary-crossing-not-reported', scen, json.dumps(impl)[:200])
+                finally:
+                    os.unlink(extra_m)
             # the same when the tree is being created (no top-level Manifest yet: the device is taken from the directory)
             top_m = os.path.join(root, 'Manifest')
             aside = top_m + '.aside'
